@@ -170,9 +170,17 @@ func c01Scenario(cs c01Case) *mc.Scenario {
 				ths = append(ths, vrt.GoL(fmt.Sprintf("P%d", t), func() {
 					for _, op := range prog {
 						switch op {
-						case 'A':
+						case 'A', 'X':
+							// 'X': the caller's context is already cancelled — the default limiter is a pure gate,
+							// the decision is the same and a refusal must not hold a slot
+							actx := ctx
+							if op == 'X' {
+								c2, cancel := vctx.WithCancel(ctx)
+								cancel()
+								actx = c2
+							}
 							c := h.now()
-							tok, ok := l.Acquire(ctx)
+							tok, ok := l.Acquire(actx)
 							r := h.now()
 							h.add(t, gateIn{Kind: 0}, ok, c, r)
 							if ok != (tok != nil) {
@@ -343,6 +351,7 @@ func runC01(c *Ctx) {
 			{name: "G3-window-raise", kind: kind, traj: []int{1, 2}, prefill: 10, held: []int{1, 0, 0}, progs: []string{"s", "A", "A"}},
 			{name: "G3-window-zero", kind: kind, traj: []int{2, 0}, prefill: 10, held: []int{1, 1, 0}, progs: []string{"d", "s", "AA"}},
 			{name: "G4-chained", kind: kind, traj: []int{1}, progs: []string{"AsA", "AsA"}},
+			{name: "G5-cancelled-context", kind: kind, traj: []int{2}, progs: []string{"XA", "XsA"}},
 		}
 		if c.Thorough() {
 			cases = append(cases,
